@@ -305,10 +305,12 @@ def esc(ctx, prog, lib):
     # class context
     cls = [b for b in lib.bodies if b.kind == "fn" and any("std::collections::BTreeSet<char>" in t for t in b.sig_inputs)]
     need_cls = {"[", "]", "\\", "^", "-"}
+    esc_closures = set()
     for fb in cls:
         for clo in [c for c in lib.bodies if c.kind == "closure" and c.parent == fb.path]:
             if not any((callee_name(t) or "") == "core::slice::<impl [T]>::contains" for _, t in clo.calls()):
                 continue
+            esc_closures.add(clo.path)
             ups = common.upvar_origins(lib, clo)
             arr = None
             for u in ups or []:
@@ -373,6 +375,15 @@ def esc3(ctx, lib):
                       "(grex -r '..b..bc..b..bc' -> ^(?:(?:.{2}b){2}c){2}$)", E.loc())
 
 
+def class_escape_closures(lib):
+    out = set()
+    for fb in [b for b in lib.bodies if b.kind == "fn" and any("std::collections::BTreeSet<char>" in t for t in b.sig_inputs)]:
+        for clo in [c for c in lib.bodies if c.kind == "closure" and c.parent == fb.path]:
+            if any((callee_name(t) or "") == "core::slice::<impl [T]>::contains" for _, t in clo.calls()):
+                out.add(clo.path)
+    return out
+
+
 def chars_compared_in_loop(hb):
     out = set()
     fi = guards.FnInfo.of(hb)
@@ -403,6 +414,7 @@ def run(ctx):
     ctx.rule("FIN-2", "inserting a test case marks its last state final on every path, and the loop over test cases calls the insertion in every iteration")
     ctx.rule("ESC-1", "every character of regex_syntax::is_meta_character (version per lock file) is escaped in literals by the constant table or a per-occurrence "
                       "mechanism, except '#' (verbose only, C06) and '&','~' (special only doubled inside classes); inside bracket classes [ ] \\ ^ - are escaped")
+    ctx.rule("RAW-1", "in the bracket-class printer no member is formatted as a raw char outside the class escaper (range end points included)")
     ctx.rule("ESC-3", "if the grapheme printer is recursive over nested repetitions, the application of the escaper is recursive as well (call-graph cycle)")
     ctx.rule("ESC-2", "escaping is per occurrence (str::replace / char loop), applied to and stored back for every stored string of a grapheme")
     ctx.assume("minimisation, state elimination and printing preserve membership of the test cases (not decided: see C16)")
@@ -411,3 +423,5 @@ def run(ctx):
     fin(ctx, lib)
     esc(ctx, prog, lib)
     esc3(ctx, lib)
+    from . import classprinter
+    classprinter.raw1(ctx, lib, class_escape_closures(lib))
